@@ -185,7 +185,7 @@ func TestC06(t *testing.T) {
 		"sibling for each link type, internal link on the first hop} x egress {own interface of each link type, sibling-owned interface " +
 		"of each link type, 0, unknown} x {SCION, EPIC} x sibling links {detached, connected} x keys; all validated hop fields carry valid MACs; " +
 		"distinct key = scenario+dirs+ingress+egress+type+key; non-trivial = all"
-	var nHarness atomic.Int64
+	var nHarness, histories atomic.Int64
 	harness := func(f string, a ...any) {
 		if nHarness.Add(1) <= 5 {
 			r.HarnessError(f, a...)
@@ -218,6 +218,15 @@ func TestC06(t *testing.T) {
 			cfg := c06Cfg(j.key)
 			cfg.ReuseLocal = j.reuse
 			rt := rtr.MustBuild(cfg)
+			hp := rt.NewHProc(j.key, ts)
+			dirt := hp.Dirt
+			if ji == 0 {
+				var kinds []string
+				for _, d := range dirt {
+					kinds = append(kinds, d.Kind)
+				}
+				r.Extra["predecessor_kinds"] = kinds
+			}
 			type ingress struct {
 				arr int
 				id  uint16
@@ -261,120 +270,151 @@ func TestC06(t *testing.T) {
 							p = cc.WithEPIC(j.key, epicTS)
 						}
 						raw, lay := p.Serialize()
-						res := rt.Process(raw, in.in)
+						// history dimension: fresh processors, and directly after each kind of predecessor packet
+						res, hdiff, hres := hp.ProcessHAll(raw, in.in)
 						key := fmt.Sprintf("%s|d%b|%s:%s%d|%s:%s%d|pt%d|k%x", sc.name, dm, c06ArrNames[in.arr], c06LTName[in.lt], in.id,
 							c06EgName[eg.kind], c06LTName[eg.lt], eg.id, j.pt, j.key[0]) + map[bool]string{true: "|connected-sibling-links"}[j.reuse]
 						r.Case(key, true)
 						if sampled.Add(1)%997 == 1 {
 							r.Sample(map[string]any{"case": key, "packet": fmt.Sprintf("%x", raw), "disp": dispName(res.Fast.Disp)})
 						}
-						detail := func() map[string]any {
-							return map[string]any{"case": key, "scenario": sc.name, "segment_change": sc.xover, "arrival": c06ArrNames[in.arr],
-								"ingress_if": in.id, "ingress_lt": c06LTName[in.lt], "egress_if": eg.id, "egress_kind": c06EgName[eg.kind],
-								"egress_lt": c06LTName[eg.lt], "disp": dispName(res.Fast.Disp), "router_egress": res.Fast.Egress,
-								"sp":     fmt.Sprintf("type=%d code=%d ptr=%d", res.Fast.SPType, res.Fast.SPCode, res.Fast.SPPointer),
-								"packet": fmt.Sprintf("%x", raw)}
+						histories.Add(int64(1 + len(dirt)))
+						// judge the result on fresh processors and, if a predecessor changes the result, that result too
+						// (finding keys of the latter carry the suffix "/after-other-packet")
+						type judged struct {
+							res  rtr.Result
+							hist string
 						}
-						if res.Panic != nil {
-							d := detail()
-							d["panic"] = fmt.Sprint(res.Panic)
-							r.Violation("panic:"+c06ArrNames[in.arr]+":egress-"+c06EgName[eg.kind], d)
-							rt.VerifStart()
-							continue
+						todo := []judged{{res, ""}}
+						if hdiff != "" {
+							r.Violation("result-depends-on-processor-history:"+map[bool]string{true: "segment-change", false: "no-segment-change"}[sc.xover],
+								map[string]any{"case": key, "difference": hdiff, "packet": fmt.Sprintf("%x", raw), "ingress": fmt.Sprint(in.in),
+									"fresh": dispName(res.Fast.Disp), "after": dispName(hres.Fast.Disp)})
+							todo = append(todo, judged{hres, hdiff})
 						}
-						fwd := res.Fast.Disp == router.VerifForward
-						// ---- specification ----
-						var mustReject bool
-						var class string
-						wantCodes := []int{}
-						wantPtrs := []int{}
-						unknownCode := c06CodeUnknownHFIn // the travel egress is the ConsIngress field against construction direction
-						if p.Segs[errInf].ConsDir {
-							unknownCode = c06CodeUnknownHFEg
-						}
-						switch {
-						case in.arr != c06ArrExt && eg.kind != c06EgOwn:
-							// "a packet coming from inside the AS must leave through an external interface of this router"
-							mustReject, class = true, "from-inside:egress-"+c06EgName[eg.kind]
-							wantCodes = []int{unknownCode, c06CodeInvalidPath, c06CodeInvalidSegChg}
-							wantPtrs = []int{lay.HopOff[errHop], lay.InfoOff[errInf]}
-						case in.arr != c06ArrExt:
-							// leaves through an own interface; the link-type pair was the ingress router's business
-						case eg.kind == c06EgUnknown:
-							mustReject, class = true, "ext:egress-unknown"
-							wantCodes, wantPtrs = []int{unknownCode}, []int{lay.HopOff[errHop]}
-						default:
-							if !c06Allowed(in.lt, eg.lt, sc.xover) {
-								mustReject = true
-								if sc.xover {
-									class = "segment-change:" + c06LTName[in.lt] + "-" + c06LTName[eg.lt]
-									wantCodes, wantPtrs = []int{c06CodeInvalidSegChg}, []int{lay.InfoOff[errInf], lay.InfoOff[errInf-1]}
-								} else {
-									class = "same-segment:" + c06LTName[in.lt] + "-" + c06LTName[eg.lt]
-									wantCodes, wantPtrs = []int{c06CodeInvalidPath}, []int{lay.HopOff[errHop]}
-								}
-								if eg.kind == c06EgZero {
-									class += "(egress 0)"
+						for _, jd := range todo {
+							res, hsuffix := jd.res, ""
+							if jd.hist != "" {
+								hsuffix = "/after-other-packet"
+							}
+							viol := func(k string, d any) { r.Violation(k+hsuffix, d) }
+							outc := func(o string) {
+								if jd.hist == "" {
+									r.Outcome(o)
 								}
 							}
-						}
-						if mustReject {
-							if fwd {
-								r.Violation("forwarded:"+class, detail())
-								continue
+							detail := func() map[string]any {
+								return map[string]any{"history": jd.hist, "case": key, "scenario": sc.name, "segment_change": sc.xover, "arrival": c06ArrNames[in.arr],
+									"ingress_if": in.id, "ingress_lt": c06LTName[in.lt], "egress_if": eg.id, "egress_kind": c06EgName[eg.kind],
+									"egress_lt": c06LTName[eg.lt], "disp": dispName(res.Fast.Disp), "router_egress": res.Fast.Egress,
+									"sp":     fmt.Sprintf("type=%d code=%d ptr=%d", res.Fast.SPType, res.Fast.SPCode, res.Fast.SPPointer),
+									"packet": fmt.Sprintf("%x", raw)}
 							}
-							if res.Fast.Disp != router.VerifSlowPath || res.Fast.SPType != scmpParamProblem {
-								r.Violation("not-parameter-problem:"+class, detail())
-								continue
-							}
-							okc, okp := false, false
-							for _, c := range wantCodes {
-								okc = okc || c == res.Fast.SPCode
-							}
-							for _, c := range wantPtrs {
-								okp = okp || c == int(res.Fast.SPPointer)
-							}
-							if !okc || !okp {
+							if res.Panic != nil {
 								d := detail()
-								d["want"] = fmt.Sprintf("code in %v, pointer in %v", wantCodes, wantPtrs)
-								r.Violation("scmp-code-or-pointer:"+class, d)
+								d["panic"] = fmt.Sprint(res.Panic)
+								viol("panic:"+c06ArrNames[in.arr]+":egress-"+c06EgName[eg.kind], d)
+								rt.VerifStart()
 								continue
 							}
-							if res.SlowErr != nil || res.SlowOut == nil {
-								d := detail()
-								d["slow_err"] = fmt.Sprint(res.SlowErr)
-								r.Violation("scmp-not-produced:"+class, d)
+							fwd := res.Fast.Disp == router.VerifForward
+							// ---- specification ----
+							var mustReject bool
+							var class string
+							wantCodes := []int{}
+							wantPtrs := []int{}
+							unknownCode := c06CodeUnknownHFIn // the travel egress is the ConsIngress field against construction direction
+							if p.Segs[errInf].ConsDir {
+								unknownCode = c06CodeUnknownHFEg
+							}
+							switch {
+							case in.arr != c06ArrExt && eg.kind != c06EgOwn:
+								// "a packet coming from inside the AS must leave through an external interface of this router"
+								mustReject, class = true, "from-inside:egress-"+c06EgName[eg.kind]
+								wantCodes = []int{unknownCode, c06CodeInvalidPath, c06CodeInvalidSegChg}
+								wantPtrs = []int{lay.HopOff[errHop], lay.InfoOff[errInf]}
+							case in.arr != c06ArrExt:
+								// leaves through an own interface; the link-type pair was the ingress router's business
+							case eg.kind == c06EgUnknown:
+								mustReject, class = true, "ext:egress-unknown"
+								wantCodes, wantPtrs = []int{unknownCode}, []int{lay.HopOff[errHop]}
+							default:
+								if !c06Allowed(in.lt, eg.lt, sc.xover) {
+									mustReject = true
+									if sc.xover {
+										class = "segment-change:" + c06LTName[in.lt] + "-" + c06LTName[eg.lt]
+										wantCodes, wantPtrs = []int{c06CodeInvalidSegChg}, []int{lay.InfoOff[errInf], lay.InfoOff[errInf-1]}
+									} else {
+										class = "same-segment:" + c06LTName[in.lt] + "-" + c06LTName[eg.lt]
+										wantCodes, wantPtrs = []int{c06CodeInvalidPath}, []int{lay.HopOff[errHop]}
+									}
+									if eg.kind == c06EgZero {
+										class += "(egress 0)"
+									}
+								}
+							}
+							if mustReject {
+								if fwd {
+									viol("forwarded:"+class, detail())
+									continue
+								}
+								if res.Fast.Disp != router.VerifSlowPath || res.Fast.SPType != scmpParamProblem {
+									viol("not-parameter-problem:"+class, detail())
+									continue
+								}
+								okc, okp := false, false
+								for _, c := range wantCodes {
+									okc = okc || c == res.Fast.SPCode
+								}
+								for _, c := range wantPtrs {
+									okp = okp || c == int(res.Fast.SPPointer)
+								}
+								if !okc || !okp {
+									d := detail()
+									d["want"] = fmt.Sprintf("code in %v, pointer in %v", wantCodes, wantPtrs)
+									viol("scmp-code-or-pointer:"+class, d)
+									continue
+								}
+								if res.SlowErr != nil || res.SlowOut == nil {
+									d := detail()
+									d["slow_err"] = fmt.Sprint(res.SlowErr)
+									viol("scmp-not-produced:"+class, d)
+									continue
+								}
+								ty, co, pr, ok := c05Scmp(res.SlowOut)
+								if !ok || ty != scmpParamProblem || co != res.Fast.SPCode || pr != int(res.Fast.SPPointer) {
+									d := detail()
+									d["scmp_packet"] = fmt.Sprintf("%x", res.SlowOut)
+									viol("scmp-packet-mismatch:"+class, d)
+									continue
+								}
+								outc(fmt.Sprintf("rejected-code%d", co))
 								continue
 							}
-							ty, co, pr, ok := c05Scmp(res.SlowOut)
-							if !ok || ty != scmpParamProblem || co != res.Fast.SPCode || pr != int(res.Fast.SPPointer) {
-								d := detail()
-								d["scmp_packet"] = fmt.Sprintf("%x", res.SlowOut)
-								r.Violation("scmp-packet-mismatch:"+class, d)
+							// allowed by the statement
+							expectFwd := in.arr == c06ArrExt || in.arr == c06ArrHost ||
+								(in.arr == c06ArrSib && !sc.xover) // a segment change is done by the ingress router, never seen from a sibling
+							if !fwd {
+								switch {
+								case expectFwd && jd.hist != "":
+									// the same packet is forwarded by fresh processors: the refusal is the history's doing
+									viol("allowed-combination-refused", detail())
+								case expectFwd:
+									harness("allowed combination not forwarded: %v", detail())
+								default:
+									outc("from-sibling-at-segment-change-" + dispName(res.Fast.Disp))
+								}
 								continue
 							}
-							r.Outcome(fmt.Sprintf("rejected-code%d", co))
-							continue
-						}
-						// allowed by the statement
-						expectFwd := in.arr == c06ArrExt || in.arr == c06ArrHost ||
-							(in.arr == c06ArrSib && !sc.xover) // a segment change is done by the ingress router, never seen from a sibling
-						if !fwd {
-							if expectFwd {
-								harness("allowed combination not forwarded: %v", detail())
+							if res.Fast.Egress != eg.id {
+								viol("forwarded-to-other-interface", detail())
+								continue
+							}
+							if in.arr == c06ArrSib && !c06Allowed(in.lt, eg.lt, sc.xover) {
+								outc("forwarded-from-sibling-unjudged-pair")
 							} else {
-								r.Outcome("from-sibling-at-segment-change-" + dispName(res.Fast.Disp))
+								outc("forwarded-" + c06ArrNames[in.arr] + "-to-" + c06EgName[eg.kind])
 							}
-							continue
-						}
-						if res.Fast.Egress != eg.id {
-							r.Violation("forwarded-to-other-interface", detail())
-							continue
-						}
-						if in.arr == c06ArrSib && !c06Allowed(in.lt, eg.lt, sc.xover) {
-							r.Outcome("forwarded-from-sibling-unjudged-pair")
-						} else {
-							r.Outcome("forwarded-" + c06ArrNames[in.arr] + "-to-" + c06EgName[eg.kind])
 						}
 					}
 				}
@@ -392,5 +432,6 @@ func TestC06(t *testing.T) {
 		"hair-pin (ingress interface == egress interface) is not enumerated",
 	}
 	r.Extra["scenarios"] = len(c06Scenarios())
+	r.Extra["packet_x_history_evaluations"] = histories.Load()
 	r.Finish(5)
 }
